@@ -37,7 +37,7 @@ fn gens(tier: Tier) -> Vec<Gen> {
         Gen { name: "matrix", count: (3 * 2 * 2 * 3 * 2) as u64, exhaustive: true, run: run_matrix },
         Gen { name: "garbage", count: tier.pick(800, 30_000), exhaustive: false, run: run_garbage },
         Gen { name: "tunnels", count: tier.pick(400, 6_000), exhaustive: false, run: run_tunnel_random },
-        Gen { name: "redirect-into-tunnel", count: tier.pick(24, 240), exhaustive: false, run: run_redirect_into_tunnel },
+        Gen { name: "redirect-into-tunnel", count: tier.pick(30, 300), exhaustive: false, run: run_redirect_into_tunnel },
     ]
 }
 
@@ -522,8 +522,14 @@ pub fn looks_like_2xx(reply: &[u8]) -> bool {
 fn run_tunnel_random(ctx: &mut Ctx, rng: &mut Rng, index: u64) {
     // certificate matrix inside the tunnel: the session must be verified against the ORIGIN's name
     let wrong_name = index % 2 == 1;
-    let cfg = Config { origin_host: "good.test", origin_port: if rng.bool() { None } else { Some(8443) }, proxy_scheme: if rng.bool() { "http" } else { "https" }, proxy_userinfo: if rng.bool() { Some(("U1", Some("pW2"))) } else { None }, proxy_port: Some(3128), accept_invalid_certs: false, add_ca_root: true };
-    let descr = |x: &str| format!("{x}; proxy={} origin={} server certificate: {}", cfg.proxy_url(), cfg.origin_url(), if wrong_name { "valid for proxy.test only" } else { "valid for good.test" });
+    // the origin is named by a DNS name or by an IPv4 literal (fixture `good` also covers the address 127.0.0.1,
+    // fixture `proxy` covers no address): the name check inside the tunnel applies to both
+    let origin_host = ["good.test", "127.0.0.1"][((index / 2) % 2) as usize];
+    if origin_host != "good.test" {
+        ctx.count("tunnel_certificate_cases_with_ip_literal_origin", 1);
+    }
+    let cfg = Config { origin_host, origin_port: if rng.bool() { None } else { Some(8443) }, proxy_scheme: if rng.bool() { "http" } else { "https" }, proxy_userinfo: if rng.bool() { Some(("U1", Some("pW2"))) } else { None }, proxy_port: Some(3128), accept_invalid_certs: false, add_ca_root: true };
+    let descr = |x: &str| format!("{x}; proxy={} origin={} server certificate: {}", cfg.proxy_url(), cfg.origin_url(), if wrong_name { "valid for proxy.test only" } else { "valid for good.test and 127.0.0.1" });
     let status = *rng.pick(&[200u16, 200, 201, 204, 299]);
     let head = reply_head(status, rng.chance(1, 5));
     let bytewise = rng.bool();
@@ -574,14 +580,24 @@ fn run_redirect_into_tunnel(ctx: &mut Ctx, rng: &mut Rng, index: u64) {
         *h2.lock().unwrap() = Some(h);
         Answer::Custom(Box::new(bridge))
     });
-    let res = attohttpc::post("http://start.test/first")
-        .proxy_settings(ProxySettings::builder().http_proxy(pu.clone()).https_proxy(pu).build())
+    // 0: another host, one proxy for both schemes; 1: the SAME host over http first, only an https
+    // proxy configured (first hop direct); 2: same host, a different proxy for plain http
+    let variant = (index / 10) % 3;
+    let start = if variant == 0 { "http://start.test/first" } else { "http://good.test/first" };
+    let settings = match variant {
+        0 => ProxySettings::builder().http_proxy(pu.clone()).https_proxy(pu).build(),
+        1 => ProxySettings::builder().https_proxy(pu).build(),
+        _ => ProxySettings::builder().http_proxy(Url::parse("http://plainproxy.test:8080").unwrap()).https_proxy(pu).build(),
+    };
+    ctx.count(["redirect_into_tunnel_other_host", "redirect_into_tunnel_same_host_first_hop_direct", "redirect_into_tunnel_same_host_other_http_proxy"][variant as usize], 1);
+    let res = attohttpc::post(start)
+        .proxy_settings(settings)
         .header("X-Secret", MARKERS[2])
         .add_root_certificate(tlsfix::load_cert("ca"))
         .text(format!("payload {}", MARKERS[4]))
         .send();
     let server = handle.lock().unwrap().take().map(|h| h.join().expect("tls server thread"));
-    let descr = |x: &str| format!("{x}; POST http://start.test/first via {proxy} -> {status} -> https://good.test/landing?x=1 (tunnel through the same proxy)");
+    let descr = |x: &str| format!("{x}; POST {start} (proxy variant {variant}) -> {status} -> https://good.test/landing?x=1 (tunnel through {proxy})");
     let _ = rng;
     ctx.count("redirect_into_tunnel_cases", 1);
     if world.dial_count() != 2 {
@@ -589,6 +605,10 @@ fn run_redirect_into_tunnel(ctx: &mut Ctx, rng: &mut Rng, index: u64) {
         return;
     }
     let second = world.dial(1);
+    if second.req.host != "proxy.test" || second.req.port != 3128 {
+        ctx.violation("redirect-into-tunnel:wrong-peer", descr(&format!("the https hop dialled {}:{} instead of the https proxy", second.req.host, second.req.port)));
+        return;
+    }
     let t = second.trace();
     let cfg = Config { origin_host: "good.test", origin_port: None, proxy_scheme: "http", proxy_userinfo: if with_creds { Some(("pUser", Some("P-w0rd"))) } else { None }, proxy_port: Some(3128), accept_invalid_certs: false, add_ca_root: true };
     let head_len = match judge_connect_head(ctx, &cfg, &t, &descr) {
